@@ -44,6 +44,14 @@
 #include "threadpool/threadpool.h"
 #include "threadpool/threadpool_msg_sys.h"
 
+/* Verification hooks: compiled out unless LIBLCB_VERIF is defined. */
+#ifdef LIBLCB_VERIF
+void	lcb_verif_point(const char *tag);
+#	define LCB_VERIF_POINT(__tag)	lcb_verif_point(__tag)
+#else
+#	define LCB_VERIF_POINT(__tag)
+#endif
+
 
 
 typedef struct thread_pool_thread_msg_queue_s { /* thread pool thread info */
@@ -146,6 +154,7 @@ tpt_msg_recv_and_process(tp_event_p ev, tp_udata_p tp_udata) {
 			}
 			if (NULL == msg[i].msg_cb)
 				continue;
+			LCB_VERIF_POINT("msg_recv:before-cb");
 			msg[i].msg_cb(tp_udata->tpt, msg[i].udata);
 		}
 		if (sizeof(msg) > readed) /* All data read. */
@@ -216,6 +225,7 @@ tpt_msg_one_by_one_proxy_cb(tpt_p tpt, void *udata) {
 
 	msg_data = udata;
 	msg_data->msg_cb(tpt, msg_data->udata);
+	LCB_VERIF_POINT("one_by_one_proxy:after-cb");
 	/* Send to next thread. */
 	msg_data->cur_thr_idx ++;
 	if (0 == tpt_msg_one_by_one_send_next__int(tpt_get_tp(tpt), tpt, msg_data))
